@@ -15,6 +15,9 @@
 (*            scale 2^12) of the first points of element i                 *)
 (*   geomtab  exact affine geometry of every root element (when known)     *)
 (*   ifaces   [t, o]: the two chains of every interface element            *)
+(*   bexpr, bindex, bcoords   the nesting of the BASE topology the         *)
+(*            topology was derived from, and its f_index / f_coords        *)
+(*            evaluated on this topology's sample                          *)
 (* TLC decides: the recorded chains are the model's denotation of expr,    *)
 (* every recorded lookup returned the element and the exact remainder (and *)
 (* the model's own Lookup agrees), f_index = i, f_coords = points, and the *)
@@ -40,6 +43,9 @@ Scale == 4096
 Slack == 3            \* rounding of recorded floats to integers, in units of 1/Scale
 
 \* ------------------------------------------------------------------ sequences
+IAbs(x) == IF x < 0 THEN -x ELSE x
+\* 2^e * Scale * (image of local point p under G), exact
+ImageNum(G, p) == [r \in 1..G.m |-> TcDotV(G.A[r], p, G.n) + G.b[r] * Scale]
 ObsOK(c, d, o) ==
     LET el == d[o.i + 1]
         n0 == TcSum(el.ref)
@@ -52,6 +58,18 @@ IfaceOK(c, f) ==
         n0 == gt.n - 1
     IN /\ f.t # f.o
        /\ Compose(gt, ChainMap(Tail(f.t), n0)) = Compose(go, ChainMap(Tail(f.o), n0))
+\* index / coordinate functions of the base topology evaluated on this (derived) topology: the model looks the
+\* element's chain up in the base sequence and applies the remainder to the sample points
+BaseOK(c, i) ==
+    LET r == Lookup(c.bexpr, c.chains[i])
+    IN /\ r # Fail
+       /\ c.bindex[i] = <<r[1]>>
+       /\ LET n0 == ChainFromDims(c.chains[i], 0)
+              F == ChainMap(r[2], n0)
+              dn == TcPow2(F.e)
+          IN \A k \in 1..Len(c.points[i]) :
+                LET img == ImageNum(F, c.points[i][k])
+                IN \A q \in 1..F.m : IAbs(img[q] - c.bcoords[i][k][q] * dn) <= Slack * dn
 SeqVerdict(c) ==
     LET d == Den(c.expr)
     IN IF Len(c.chains) # Len(d) THEN "len-differs-from-model"
@@ -63,12 +81,10 @@ SeqVerdict(c) ==
        ELSE IF \E i \in 1..Len(c.findex) : c.findex[i] # <<i - 1>> THEN "f_index-wrong"
        ELSE IF \E i \in 1..Len(c.fcoords) : c.fcoords[i] # c.points[i] THEN "f_coords-wrong"
        ELSE IF \E k \in 1..Len(c.ifaces) : ~IfaceOK(c, c.ifaces[k]) THEN "interface-sides-differ"
+       ELSE IF c.bexpr.k # "none" /\ \E i \in 1..Len(c.bindex) : ~BaseOK(c, i) THEN "base-index-or-coords-wrong"
        ELSE "ok"
 
 \* ------------------------------------------------------------------ locate
-IAbs(x) == IF x < 0 THEN -x ELSE x
-\* 2^e * Scale * (image of local point p under G), exact
-ImageNum(G, p) == [r \in 1..G.m |-> TcDotV(G.A[r], p, G.n) + G.b[r] * Scale]
 PointOK(c, k) ==
     LET r == c.res[k]
         G == c.geomtab[r.i + 1]
